@@ -168,7 +168,13 @@ func (g *GaussianSampler) read(pol Poly, f func(a, b, c uint64) uint64) {
 			}
 
 			for j, qi := range moduli {
-				coeffs[j][i] = f(coeffs[j][i], (coeffInt*sign)|(qi-coeffInt)*(sign^1), qi)
+				// The sample can exceed a small modulus (e.g. noise flooding): reduces it first,
+				// else qi-coeffInt underflows and the moduli disagree on the sampled integer.
+				c := coeffInt
+				if c >= qi {
+					c %= qi
+				}
+				coeffs[j][i] = f(coeffs[j][i], (c*sign)|(qi-c)*(sign^1), qi)
 			}
 		}
 	}
